@@ -12,6 +12,8 @@ import RtVerif.Gen.Facts
   an empty stream that ignores `Close` (`Read`: `0, io.EOF`; `Close`: `nil` since the fix
   "closing the body after HasBody probed a request without body no longer panics").
   Histories are arbitrary lists of `HasBody | Read k | Close | Drain k`.
+  The scripted stream at the bottom carries the two counters the harness reports: the `Close` calls
+  it saw, and the `Read` calls it received after it had been closed (`CSrc.late`).
 
   Spec: written from the property text, judged on an observed trace (see "Spec" below).
 -/
@@ -20,13 +22,25 @@ open RtVerif Bytes _root_.RtVerif.Stream
 
 /-! ## Model -/
 
+/-- The scripted stream as the harness instruments it: `late` counts the `Read` calls that reached
+it after it had been closed (`c17Src.Read`: `if s.closes > 0 { s.late++; return 0, errClosed }`). -/
+structure CSrc where
+  s : Src
+  late : Nat := 0
+
+def CSrc.isClosed (c : CSrc) : Bool := c.s.checksClosed && decide (0 < c.s.closes)
+
+def csrcReader : Reader CSrc where
+  read := fun c k => ((c.s.read k).1, { s := (c.s.read k).2, late := if c.isClosed then c.late + 1 else c.late })
+  close := fun c => (c.s.close.1, { c with s := c.s.close.2 })
+
 /-- The reader state under `r.Body` after `n` wrapping probes. -/
 def Stack : Nat → Type
-  | 0 => Src
+  | 0 => CSrc
   | n + 1 => PR × Stack n
 
 def tower : (n : Nat) → Reader (Stack n)
-  | 0 => srcReader
+  | 0 => csrcReader
   | n + 1 => wrap (tower n)
 
 /-- What the request's original `Body` was. `nilpr`: the nil interface (after a probe: a typed-nil
@@ -59,7 +73,7 @@ inductive Out where
 deriving DecidableEq, Repr
 
 /-- A nil `*peekingReader`: `Read` returns `0, io.EOF`, `Close` returns nil, nothing is counted. -/
-def nilSrc : Src := { data := [], term := .eof, together := false, sched := [], checksClosed := false }
+def nilSrc : CSrc := { s := { data := [], term := .eof, together := false, sched := [], checksClosed := false } }
 
 /-- `HasBody`. -/
 def hasBody (r : Req) : Bool × Req :=
@@ -110,8 +124,13 @@ def runOps (r : Req) : List Op → List Out × Req
 
 /-- Close counter of the stream at the bottom of the tower. -/
 def botCloses : (n : Nat) → Stack n → Nat
-  | 0, s => s.closes
+  | 0, c => c.s.closes
   | n + 1, ps => botCloses n ps.2
+
+/-- Late-read counter of the stream at the bottom of the tower. -/
+def botLate : (n : Nat) → Stack n → Nat
+  | 0, c => c.late
+  | n + 1, ps => botLate n ps.2
 
 /-- The scenario a case describes. -/
 structure Scenario where
@@ -127,8 +146,8 @@ structure Scenario where
 def Scenario.req (g : Scenario) : Req :=
   { cl := g.cl, hdr := g.hdr, limit := g.data.length + g.sched.length + 2,
     body := match g.kind with
-      | .src => some ⟨.src, 0, { data := g.data, term := g.term, together := g.together,
-                                 sched := g.sched, cerr := g.cerr }⟩
+      | .src => some ⟨.src, 0, { s := { data := g.data, term := g.term, together := g.together,
+                                        sched := g.sched, cerr := g.cerr } }⟩
       | .nobody => some ⟨.nobody, 0, nilSrc⟩     -- http.NoBody: Read 0,EOF; Close nil
       | .nilpr => none }
 
@@ -138,9 +157,17 @@ def reportedCloses (g : Scenario) (r : Req) : Nat :=
   | .src, some b => botCloses b.depth b.st
   | _, _ => 0
 
-def model (g : Scenario) (ops : List Op) : List Out × Nat :=
+/-- What the harness reports as `<late>`: the `Read` calls the scripted stream received after it had
+been closed (0 without a scripted stream). -/
+def reportedLate (g : Scenario) (r : Req) : Nat :=
+  match g.kind, r.body with
+  | .src, some b => botLate b.depth b.st
+  | _, _ => 0
+
+/-- The trace, `<closes>`, `<late>`. -/
+def model (g : Scenario) (ops : List Op) : List Out × Nat × Nat :=
   let x := runOps g.req ops
-  (x.1, reportedCloses g x.2)
+  (x.1, reportedCloses g x.2, reportedLate g x.2)
 
 /-! ## Spec (from the property text, not from the code)
 
@@ -162,8 +189,17 @@ yet handed out.  Readings:
   of `rest`, an error may only come once `rest` is exhausted and must be the original terminal;
   "yields exactly…": reading until an error (`drain`) returns all of `rest`, then the terminal;
 * after a `Close`: no `Read` returns data, and a `Read` into a non-empty buffer returns an error;
-* closes: each `Close` the caller makes directly on its own stream counts as the caller's; all the
-  `Close` calls made through a body installed by `HasBody` together close the stream once;
+* "closing the body … reads after close …" speak of the body as it is after asking.  Once `HasBody`
+  has been asked on a request whose length is not declared (no `Content-Length` header,
+  `ContentLength ≤ 0`: `undeclared`) and whose `Body` is not nil, the body the request holds IS the
+  library's (`probed`): no later `Close` on `req.Body` may be observed as a direct `Close` of the
+  caller's own stream, all of them together close the underlying stream exactly once, and no `Read`
+  after such a `Close` reaches the underlying stream (`specLate`; the harness counts the `Read`
+  calls the scripted stream receives after it was closed);
+* a request with a declared length is left alone by `HasBody`, and a `Close` the caller makes
+  directly on its own stream BEFORE any probe is the caller's own (`directs`): each counts as one
+  close of the underlying stream, and the reads that reach a stream the caller itself closed before
+  asking (the probe must read) are not held against the library;
 * streams whose runs of zero-length reads reach bufio's `maxConsecutiveEmptyReads` (100) are
   outside the claim (`okRuns`): bufio reports `io.ErrNoProgress` on them by design.
 -/
@@ -195,6 +231,14 @@ structure Track where
   closed : Bool := false
   directs : Nat := 0
   lib : Bool := false
+  probed : Bool := false
+
+/-- No length is declared, in the two places `HasBody` can see one. On requests whose header and
+field agree (`lenWF`) this is `declared g = none` (`undeclared_iff` in Props). -/
+def undeclared (g : Scenario) : Bool := g.hdr.isEmpty && !decide (0 < g.cl)
+
+/-- A probe of this request looks at the body (and from then on the body is the library's). -/
+def takesOver (g : Scenario) : Bool := undeclared g && g.kind != .nilpr
 
 def specAnswer (g : Scenario) (t : Track) : Bool :=
   match declared g with
@@ -203,7 +247,7 @@ def specAnswer (g : Scenario) (t : Track) : Bool :=
 
 def specStep (g : Scenario) (t : Track) (op : Op) (o : Out) : Bool × Track :=
   match op, o with
-  | .hasBody, .has b => (!lenWF g || b == specAnswer g t, t)
+  | .hasBody, .has b => (!lenWF g || b == specAnswer g t, { t with probed := t.probed || takesOver g })
   | .hasBody, _ => (false, t)
   | _, .nilBody => (g.kind == .nilpr, t)
   | .read k, .rd d e =>
@@ -219,8 +263,10 @@ def specStep (g : Scenario) (t : Track) (op : Op) (o : Out) : Bool × Track :=
     else if t.closed then (d.isEmpty && e.isSome && !cap, t)
     else (d == t.rest && e == some g.sTerm && !cap, { t with rest := [] })
   | .close, .cl _ direct =>
-    (true, { t with closed := true, directs := if direct then t.directs + 1 else t.directs,
-                    lib := t.lib || !direct })
+    -- after a probe took the body over, a `Close` that lands directly on the caller's stream is wrong
+    (!(t.probed && direct),
+     { t with closed := true, directs := if direct then t.directs + 1 else t.directs,
+              lib := t.lib || !direct })
   | _, _ => (false, t)
 
 def specGo (g : Scenario) : Track → List Op → List Out → Bool × Track
@@ -231,13 +277,20 @@ def specGo (g : Scenario) : Track → List Op → List Out → Bool × Track
     (x.1 && y.1, y.2)
   | t, _, _ => (false, t)
 
+/-- The caller's own closes (all made before any probe, `specStep` rejects later ones) plus ONE for
+all the `Close` calls made through the library's body. -/
 def specCloses (g : Scenario) (t : Track) (closes : Nat) : Bool :=
   g.kind != .src || closes == t.directs + (if t.lib then 1 else 0)
 
-def specTrace (g : Scenario) (ops : List Op) (outs : List Out) (closes : Nat) : Bool :=
+/-- Unless the caller closed its own stream before asking, no `Read` ever reaches the underlying
+stream after it was closed. -/
+def specLate (g : Scenario) (t : Track) (late : Nat) : Bool :=
+  g.kind != .src || t.directs != 0 || late == 0
+
+def specTrace (g : Scenario) (ops : List Op) (outs : List Out) (closes late : Nat) : Bool :=
   !okRuns g.sched ||
     (let y := specGo g { rest := g.sData } ops outs
-     y.1 && specCloses g y.2 closes)
+     y.1 && specCloses g y.2 closes && specLate g y.2 late)
 
 /-! ## Driver entry -/
 
@@ -303,6 +356,13 @@ def maxDepth (g : Scenario) (ops : List Op) : Nat :=
   | some b => b.depth
   | none => 0
 
+/-- A probe that found nothing is followed by a `Close` (tag letter `E`): the histories on which a
+body that was not taken over would show. -/
+def emptyProbeClosed : List Op → List Out → Bool
+  | .hasBody :: ops, .has false :: outs => ops.contains .close || emptyProbeClosed ops outs
+  | _ :: ops, _ :: outs => emptyProbeClosed ops outs
+  | _, _ => false
+
 def tagOf (g : Scenario) (ops : List Op) : String :=
   if ops.isEmpty then "~noops"
   else if !okRuns g.sched then "~longzerorun"
@@ -312,7 +372,8 @@ def tagOf (g : Scenario) (ops : List Op) : String :=
     let c := if ops.contains .close then "c" else ""
     let d := if ops.any (fun o => match o with | .drain _ => true | _ => false) then "d" else ""
     let sz := if g.sData.length ≥ bufSize then "B" else if g.sData.isEmpty then "e" else "s"
-    s!"{k}{sz}:{l}:w{min (maxDepth g ops) 3}{c}{d}"
+    let e := if takesOver g && emptyProbeClosed ops (runOps g.req ops).1 then "E" else ""
+    s!"{k}{sz}:{l}:w{min (maxDepth g ops) 3}{c}{d}{e}"
 
 def renderErr : Option Err → String
   | none => "ok"
@@ -337,13 +398,15 @@ def run (ins outs : List String) : Verdict :=
       | ["PANIC", msg] =>
         { agree := false, specOk := false, tag := "panic", model := "no panic expected; impl: " ++ msg }
       | _ =>
-        match outs.getLast?.bind (·.toNat?), outs.dropLast.mapM parseOut with
-        | some closes, some os =>
+        match outs.dropLast.getLast?.bind (·.toNat?), outs.getLast?.bind (·.toNat?),
+              outs.dropLast.dropLast.mapM parseOut with
+        | some closes, some late, some os =>
           let m := model g ops
-          { agree := m.1 == os && m.2 == closes, specOk := specTrace g ops os closes,
+          { agree := m.1 == os && m.2.1 == closes && m.2.2 == late,
+            specOk := specTrace g ops os closes late,
             tag := tagOf g ops,
-            model := " ".intercalate (m.1.map renderOut) ++ s!" closes={m.2}" }
-        | _, _ => { agree := false, specOk := false, tag := "unparsed-output", model := "" }
+            model := " ".intercalate (m.1.map renderOut) ++ s!" closes={m.2.1} late={m.2.2}" }
+        | _, _, _ => { agree := false, specOk := false, tag := "unparsed-output", model := "" }
   | _ => .bad "C17 stream"
 
 end RtVerif.C17
